@@ -20,7 +20,34 @@ def pick_engine_cfg(t):
         pc=t.choose([None, True, False]),
         ac=t.choose([None, "gather", "sync"]),
         type_as_object=t.chance(30),
+        **pick_build_cfg(t),
     )
+
+
+def pick_build_cfg(t):
+    """Ways of constructing the engine that the documentation declares equivalent (own stream, so that
+    the other choices of a seed are unaffected; all-zero draws give create_engine with built-in defaults)."""
+    from simv.tape import SubTape
+    b = SubTape(t.t, t.s + ".build") if hasattr(t, "t") else t
+    return dict(
+        build=b.weighted([(4, "create_engine"), (2, "ctor"), (2, "cook_args"), (2, "split"), (1, "cook_twice")]),
+        dr=b.chance(30), dtr=b.chance(30), ec=b.chance(20), jl=b.chance(20), sdl_file=b.chance(15),
+    )
+
+
+def build_probes(cfg, out, engine=None):
+    p = {"engine_built_by_" + (cfg.get("build") or "create_engine"): 1}
+    for k, label in (("dr", "custom_default_resolver"), ("dtr", "custom_default_type_resolver"), ("ec", "identity_error_coercer"),
+                     ("jl", "custom_json_loader"), ("sdl_file", "sdl_from_file")):
+        if cfg.get(k):
+            p["engine_with_" + label] = 1
+    rt = getattr(out, "rt", None)
+    if rt is not None:
+        if rt.default_calls:
+            p["custom_default_resolver_calls"] = len(rt.default_calls)
+        if rt.default_type_calls:
+            p["custom_default_type_resolver_calls"] = rt.default_type_calls
+    return p
 
 
 def exc_violation(out):
@@ -108,6 +135,9 @@ def run_single(prop, seed, preset, want_case, schema_knobs=None, doc_knobs=None,
     probes = dict(getattr(case.doc, "probes", {}))
     for k, v in plan.probes.items():
         probes[k] = probes.get(k, 0) + v
+    probes.update(build_probes(cfg, out, engine))
+    if cfg.get("jl") and out.exc is None and isinstance(out.resp, dict) and "data" in out.resp and not engine._simv_jl[0]:
+        r["viol"].append(V("json_loader_not_used", "the request was parsed and executed without the engine's json_loader being called"))
     r["probes"] = probes
     r["metrics"] = {
         "field_instances": plan.instances,
